@@ -6,6 +6,9 @@ import (
 	"sort"
 	"strings"
 	"sync"
+	"time"
+	"verif/harness/plug"
+	"verif/harness/tsrun"
 
 	"google.golang.org/protobuf/encoding/protojson"
 	"google.golang.org/protobuf/proto"
@@ -67,7 +70,7 @@ func C10(c *Ctx) error {
 		for _, src := range c10Sources {
 			variants := []string{""}
 			if src == "rule_violation" {
-				variants = []string{"top", "child", "repeated", "map", "two_fields"}
+				variants = []string{"top", "child", "repeated", "map", "two_fields", "repeated_two", "map_two"}
 			}
 			if src == "url_binding" {
 				variants = []string{"bad_path_int", "missing_required_query", "bad_path_range", "bad_query_int", "bad_query_bool"}
@@ -114,6 +117,11 @@ func C10(c *Ctx) error {
 									body, ks.wantViol = fmt.Sprintf(`{"name":"n","places":[{"%s":"ok"},{"%s":""}]}`, ir.JSONName(street), ir.JSONName(street)), []string{"places." + street}
 								case "map":
 									body, ks.wantViol = fmt.Sprintf(`{"name":"n","byKey":{"k":{"%s":""}}}`, ir.JSONName(street)), []string{"by_key." + street}
+								case "repeated_two":
+									// two failing elements: two violations whose field paths coincide — both are reported
+									body, ks.wantViol = fmt.Sprintf(`{"name":"n","places":[{"%s":""},{"%s":"ok"},{"%s":""}]}`, ir.JSONName(street), ir.JSONName(street), ir.JSONName(street)), []string{"places." + street, "places." + street}
+								case "map_two":
+									body, ks.wantViol = fmt.Sprintf(`{"name":"n","byKey":{"a":{"%s":""},"b":{"%s":""}}}`, ir.JSONName(street), ir.JSONName(street)), []string{"by_key." + street, "by_key." + street}
 								default:
 									body, ks.wantViol = `{"name":"","qty":-5}`, []string{"name", "qty"}
 								}
@@ -331,6 +339,90 @@ func C10(c *Ctx) error {
 				res.Violation("client_status", fmt.Sprintf("%s: client error %q does not carry the status", label, e["text"]), replay)
 			}
 		}
+	}
+	// ---- the generated TypeScript client on the same error responses ---------------------------
+	// every JSON error response the Go server really produced is handed to the emitted TS client as the
+	// answer to a call: a 400 carrying violations must come out as ValidationError with the same
+	// violations, anything else as ApiError with the same status and body
+	if tsrun.Available() {
+		td, err := tsrun.NewDir()
+		if err == nil {
+			defer td.Close()
+			for _, x := range its {
+				pr, err := plug.Run(plug.TSClient, x.req, nil)
+				if err != nil || !pr.OK() {
+					res.Corr("ts_client", "ts-client gives no module for the error schema", map[string]any{"schema": x.req})
+					continue
+				}
+				path, err := td.WriteModule(x.it.ID, "client", onlyFile(pr))
+				if err != nil {
+					return err
+				}
+				var ops []any
+				var ks []*kase
+				for _, k := range byItem[x] {
+					o := outs[k]
+					if k.via != "serve" || k.ct != "application/json" || o == nil || o["status"] == nil {
+						continue
+					}
+					body, _ := base64.StdEncoding.DecodeString(fmt.Sprint(o["body"]))
+					ops = append(ops, map[string]any{"op": "ts_call", "svc": "Errs", "rpc": "post", "base": "http://h.test", "req": map[string]any{"name": "n", "qty": 1},
+						"canned": map[string]any{"status": jsonInt(o["status"]), "headers": [][2]string{{"content-type", fmt.Sprint(o["ct"])}}, "body": string(body)}})
+					ks = append(ks, k)
+				}
+				if len(ops) == 0 {
+					continue
+				}
+				_, touts, err := td.Run(x.it.ID, path, "", ops, 3*time.Minute)
+				if err != nil {
+					res.Corr("ts_client", "node runner failed: "+err.Error(), map[string]any{"schema": x.req})
+					continue
+				}
+				for i, k := range ks {
+					o, to := outs[k], touts[i]
+					status := jsonInt(o["status"])
+					obs := observeServe(k.ct, k.hook, o)
+					e, _ := to["error"].(map[string]any)
+					label := fmt.Sprintf("%s%s [hook %s, ts-client]", k.src, ifs(k.variant != "", ":"+k.variant, ""), k.hook)
+					replay := map[string]any{"schema": k.x.req, "case": map[string]any{"src": k.src, "variant": k.variant, "hook": k.hook}, "served": o, "ts_client": to}
+					res.Case(map[string]any{"src": k.src, "variant": k.variant, "hook": k.hook, "via": "ts-client", "schema": k.x.it.ID}, true)
+					res.Count("ts_client:status_" + fmt.Sprint(status))
+					if e == nil {
+						if status >= 200 && status < 300 {
+							continue
+						}
+						res.Violation("ts_client_no_error", fmt.Sprintf("%s: status %d, the TS client returned without an error: %v", label, status, to), replay)
+						continue
+					}
+					isVal, _ := e["is_validation"].(bool)
+					isAPI, _ := e["is_api"].(bool)
+					if status == 400 && obs.kind == "violations" {
+						var got []string
+						for _, v := range asList(e["violations"]) {
+							vm, _ := v.(map[string]any)
+							got = append(got, fmt.Sprint(vm["field"]))
+						}
+						want := append([]string{}, obs.fields...)
+						sort.Strings(got)
+						sort.Strings(want)
+						if !isVal || fmt.Sprint(got) != fmt.Sprint(want) {
+							res.Violation("ts_client_validation", fmt.Sprintf("%s: a 400 with violations %v reached the TS caller as %v (ValidationError=%v) carrying %v", label, want, e["name"], isVal, got), replay)
+						} else {
+							res.CorrAgree()
+						}
+						continue
+					}
+					if !isAPI || isVal || jsonInt(e["statusCode"]) != status || fmt.Sprint(e["body"]) != obs.raw {
+						res.Violation("ts_client_error", fmt.Sprintf("%s: status %d body %.80q reached the TS caller as %v (ApiError=%v, ValidationError=%v) with statusCode %v body %.80q",
+							label, status, obs.raw, e["name"], isAPI, isVal, e["statusCode"], fmt.Sprint(e["body"])), replay)
+					} else {
+						res.CorrAgree()
+					}
+				}
+			}
+		}
+	} else {
+		res.Note("node 22 not found: the TS client's error mapping is not exercised")
 	}
 	res.Programs = len(items)
 	return nil
